@@ -174,17 +174,9 @@ def KnownFindings : List Row := [
   ⟨.required, n!"form:property", n!"office:value-type"⟩,
   ⟨.required, n!"form:list-property", n!"office:value-type"⟩,
   ⟨.required, n!"style:style", n!"style:family"⟩,
-  ⟨.required, n!"style:default-style", n!"style:family"⟩,
-  -- factory raises when called as f(check_grammar=False), as getElementsByType/isInstanceOf do
-  ⟨.factory, n!"dr3d:light", NOITEM⟩,
-  ⟨.factory, n!"draw:gradient", NOITEM⟩,
-  ⟨.factory, n!"svg:linearGradient", NOITEM⟩,
-  ⟨.factory, n!"svg:radialGradient", NOITEM⟩,
-  ⟨.factory, n!"draw:hatch", NOITEM⟩,
-  ⟨.factory, n!"draw:fill-image", NOITEM⟩,
-  ⟨.factory, n!"draw:opacity", NOITEM⟩,
-  ⟨.factory, n!"draw:marker", NOITEM⟩,
-  ⟨.factory, n!"draw:stroke-dash", NOITEM⟩
+  ⟨.required, n!"style:default-style", n!"style:family"⟩
+  -- (the nine `factory:` rows for draw:fill-image … dr3d:light were repaired in /repo by 9cb26c9 and
+  --  3268ede and are gone from this list)
 ]
 
 def inExceptions (k : Kind) (e x : Nat) : Bool := prefixExcepted e || inRows Exceptions k e x
